@@ -1102,6 +1102,8 @@ fn near_variant(tok: &str, how: &str) -> Option<Vec<u8>> {
         ("ext", Some("c")) => format!("{tok}x").into_bytes(),
         ("ext", Some("sp")) => format!("{tok} and then some").into_bytes(),
         ("ext", Some("ws")) => format!("{tok}  ").into_bytes(),
+        // the credential followed by 256 more characters (a length difference that is zero modulo 256)
+        ("ext", Some("x256")) => format!("{tok}{}", "x".repeat(256)).into_bytes(),
         ("chg", Some(p)) => {
             if len == 0 {
                 return None;
@@ -1153,6 +1155,15 @@ fn near_variants(len: Option<usize>) -> Vec<String> {
         Some(n) if n <= 24 => (1..n).map(|k| format!("pre:{k}")).collect(),
         _ => ["pre:1", "pre:2", "pre:h", "pre:m2", "pre:m1"].iter().map(|s| s.to_string()).collect(),
     };
+    // lengths that differ from the credential's by a multiple of 256 (length arithmetic in a narrow integer)
+    if let Some(n) = len {
+        if n > 256 {
+            for k in [n - 256, n - 255, n - 257] {
+                v.push(format!("pre:{k}"));
+            }
+        }
+    }
+    v.push("ext:x256".to_string());
     for s in ["ext:c", "ext:sp", "ext:ws", "chg:0", "chg:mid", "chg:last", "case", "ws:lead", "ws:trail", "ws:both", "ws:tab", "empty"] {
         v.push(s.to_string());
     }
@@ -2355,6 +2366,22 @@ fn gen_plans(seed: u64, tier: &str, rows: &[Row], peer: &str) -> (Vec<(CaseCfg, 
             }
             plans.push(Plan { inst: OWN_INSTANCE, id: format!("s{seed}-c20-config-{tag}"), cfg: c, ops });
         }
+    }
+
+    // ---- an instance of its own whose admin token is LONG (300 characters, e.g. `openssl rand -hex 150`): the token itself,
+    // and its neighbourhood incl. the prefixes / extensions whose length differs by a multiple of 256, on the sample rows
+    {
+        let long_admin: String = (0..300).map(|i| char::from(b"0123456789abcdef"[(i * 7 + i / 16) % 16])).collect();
+        let c = CaseCfg { admin_only: true, admin: long_admin.clone(), testbed: false, key: 41, roles: Vec::new(), users: Vec::new(), ..Default::default() };
+        let sample = near_rows(rows);
+        let mut ops = vec!["start".to_string()];
+        ops.push(row_op(sample[0], "ca1", "tcp", &format!("bearer:txt:{}", hexs(&long_admin))));
+        for v in near_variants(Some(long_admin.len())) {
+            for r in &sample {
+                ops.push(row_op(r, "ca1", "tcp", &format!("near:adm:{v}")));
+            }
+        }
+        plans.push(Plan { inst: OWN_INSTANCE, id: format!("s{seed}-c20-long-admin-token"), cfg: c, ops });
     }
 
     // ---- instance 3 (C20, only as root): several system accounts mapped, the connecting thread's effective
